@@ -388,7 +388,20 @@ func (in *Interp) evalStep(step *ast.Node, item val.Value, env *Env) (val.Value,
 		if e := in.tick(); e != nil {
 			return val.U, e
 		}
-		return nameStep(step.S, item), nil
+		v := nameStep(step.S, item)
+		// a member whose value is JSON null: the library treats it as absent in
+		// some positions and as null in others (README, "Null handling"); not modelled
+		if v.K == val.Null {
+			return val.U, &Err{Kind: "unsupported-null-member"}
+		}
+		if v.K == val.Arr {
+			for _, e := range v.A {
+				if e.K == val.Null {
+					return val.U, &Err{Kind: "unsupported-null-member"}
+				}
+			}
+		}
+		return v, nil
 	case ast.Pred:
 		if e := in.tick(); e != nil {
 			return val.U, e
@@ -1033,6 +1046,10 @@ func (in *Interp) applyTransform(t *TransformFn, args []val.Value) (val.Value, *
 	if a.IsUndef() {
 		return val.U, nil
 	}
+	if a.K == val.Fn {
+		// an error either way; the library reports that it cannot copy the value
+		return val.U, &Err{Kind: "ArgType", Msg: "ambiguous"}
+	}
 	if a.K != val.Obj && a.K != val.Arr {
 		return val.U, &Err{Kind: "ArgType"}
 	}
@@ -1185,6 +1202,10 @@ func BinOp(op string, l, r val.Value) (val.Value, *Err) {
 		if l.IsUndef() || r.IsUndef() {
 			return val.False, nil
 		}
+		if containsFn(l) || containsFn(r) {
+			// the statement defines no equality on function values
+			return val.U, &Err{Kind: "unsupported-function-equality"}
+		}
 		switch op {
 		case "=":
 			return val.B(Eq(l, r)), nil
@@ -1213,6 +1234,26 @@ func BinOp(op string, l, r val.Value) (val.Value, *Err) {
 		return val.S(ls + rs), nil
 	}
 	return val.U, &Err{Kind: "unsupported-operator:" + op}
+}
+
+func containsFn(v val.Value) bool {
+	switch v.K {
+	case val.Fn:
+		return true
+	case val.Arr:
+		for _, e := range v.A {
+			if containsFn(e) {
+				return true
+			}
+		}
+	case val.Obj:
+		for _, e := range v.O {
+			if containsFn(e) {
+				return true
+			}
+		}
+	}
+	return false
 }
 
 // Eq is JSONata equality on values: by value for numbers, strings, booleans,
